@@ -153,7 +153,7 @@ PROPS = {
     },
     'C18': {
         'modules': ['SE.Props.C18', 'SE.Gen.TieDeps', 'SE.Gen.TieSync'],
-        'streams': [{'component': 'frame', 'confirm': True, 'note_kinds': {'frame'}}, {'component': 'udpq', 'confirm': True},
+        'streams': [{'component': 'frame', 'confirm': True, 'note_kinds': {'frame'}}, {'component': 'udpq', 'confirm': True}, {'component': 'udpl', 'confirm': True},
                     {'component': 'tcpconc', 'confirm': True}, {'component': 'framerelay', 'confirm': True},
                     {'component': 'binary', 'confirm': True, 'seed_off': 300}, {'component': 'binframe', 'confirm': True}],
         'level': 'proof',
